@@ -787,4 +787,6 @@ func VerifWireDecode(kind string, body []byte) (VerifWire, error) {
 }
 
 // VerifPushPullScale wraps pushPullScale.
-func VerifPushPullScale(interval time.Duration, n int) time.Duration { return pushPullScale(interval, n) }
+func VerifPushPullScale(interval time.Duration, n int) time.Duration {
+	return pushPullScale(interval, n)
+}
